@@ -58,7 +58,9 @@ var defaultStubs = []struct {
 	{"github.com/canopy-network/canopy/lib/crypto.HashString", StubSpec{"intrinsic", "opaque.string"}},
 	{"github.com/canopy-network/canopy/lib/crypto.ShortHashString", StubSpec{"intrinsic", "opaque.string"}},
 	{"github.com/canopy-network/canopy/lib.BytesToTruncatedString", StubSpec{"intrinsic", "opaque.string"}},
-	{"github.com/canopy-network/canopy/lib.BytesToString", StubSpec{"intrinsic", "opaque.string"}},
+	{"github.com/canopy-network/canopy/lib.BytesToString", StubSpec{"intrinsic", "ident.b2s"}},
+	{"github.com/canopy-network/canopy/lib.StringToBytes", StubSpec{"intrinsic", "ident.s2b"}},
+	{"github.com/canopy-network/canopy/lib.MemHash", StubSpec{"intrinsic", "memhash"}},
 	{"(*github.com/canopy-network/canopy/lib.Block).BytesToBlockHash", StubSpec{"intrinsic", "hash32.err"}},
 	{"(*github.com/canopy-network/canopy/lib.CertificateResult).Hash", StubSpec{"intrinsic", "hashdeep32"}},
 	{"github.com/canopy-network/canopy/lib.TimeTrack", StubSpec{"noop", ""}},
